@@ -210,13 +210,13 @@ impl LookupClass<&StringName, Class> for Context {
             }
 
             let clss = Class::try_from((generic_class, &generics, pos))?;
-            // parents are a set: fold them in a fixed order, so that the member which is inherited
-            // when two parents define the same name does not depend on the iteration order
-            let clss = clss
+            // parents are a set: fold them in the order they are written in, so that the member which
+            // is inherited when two parents define the same name is the one Python finds first
+            let clss = generic_class
                 .parents
                 .iter()
-                .sorted()
-                .map(|p| self.class(p, pos))
+                .sorted_by_key(|p| (p.pos.start.line, p.pos.start.pos, p.name.clone()))
+                .map(|p| TrueName::try_from((p, &generics, pos)).and_then(|p| self.class(&p, pos)))
                 .collect::<TypeResult<Vec<Class>>>()?
                 .iter()
                 .fold(clss, |acc, parent| acc.inherit(parent));
